@@ -80,7 +80,12 @@ func c14One(c *vf.Ctx, sub string, i int, r *rand.Rand, ids []Ident) {
 	if r.Intn(3) == 0 {
 		seg = int64(1 + r.Intn(2)) // segmented syncs: the count of a notification spans all segments
 	}
-	desc := fmt.Sprintf("publishers=%d rounds=%d listeners=%d tap-delay=%d/1000 close-with-stalled-readers=%v segment-depth=%d", npub, rounds, nlist, delay, closeAtEnd, seg)
+	twoExplicit := !many && r.Intn(3) == 0 // a second goroutine syncs the same publishers explicitly at the same time
+	overlap := []string{"", "", "explicit", "announce"}[r.Intn(4)]
+	if many {
+		overlap = ""
+	}
+	desc := fmt.Sprintf("publishers=%d rounds=%d listeners=%d tap-delay=%d/1000 close-with-stalled-readers=%v segment-depth=%d concurrent-explicit-syncs-of-one-publisher=%v held-notification-overlap=%q", npub, rounds, nlist, delay, closeAtEnd, seg, twoExplicit, overlap)
 	c.Cur(sub, i, desc)
 	pubs := make([]*c08Pub, npub)
 	byID := map[peer.ID]*c08Pub{}
@@ -123,22 +128,27 @@ func c14One(c *vf.Ctx, sub string, i int, r *rand.Rand, ids []Ident) {
 	}
 	// expected Count of each emission: hooks seen by the syncing goroutine between sync.enter and sync.exit
 	var cmu sync.Mutex
-	counts := map[string]int{} // peer|cid -> hook count of the sync that emitted it
+	counts := map[string][]int{} // peer|cid -> hook counts of the syncs that sent a notification for it, in order
+	var lastCount sync.Map       // goroutine id -> hook count of its last finished sync
 	var enterCid sync.Map      // goroutine id -> head cid seen at sync.enter
+	var enterN sync.Map        // goroutine id -> *atomic.Int64: syncs entered by that goroutine
 	tl.onPoint = func(point string, p peer.ID, cd cid.Cid) cid.Cid {
 		switch point {
 		case "sync.enter":
 			v, _ := hookCount.LoadOrStore(goroutineID(), new(atomic.Int64))
 			v.(*atomic.Int64).Store(0)
 			enterCid.Store(goroutineID(), cd) // the head being synced (sync.exit reports the last segment's root)
+			en, _ := enterN.LoadOrStore(goroutineID(), new(atomic.Int64))
+			en.(*atomic.Int64).Add(1)
 		case "sync.exit":
 			if v, ok := hookCount.Load(goroutineID()); ok {
-				head := cd
-				if h, ok := enterCid.Load(goroutineID()); ok {
-					head = h.(cid.Cid)
-				}
+				lastCount.Store(goroutineID(), int(v.(*atomic.Int64).Load()))
+			}
+		case "event.emit.begin":
+			// the notification is sent by the goroutine that ran the sync
+			if v, ok := lastCount.Load(goroutineID()); ok {
 				cmu.Lock()
-				counts[string(p)+"|"+head.String()] = int(v.(*atomic.Int64).Load())
+				counts[string(p)+"|"+cd.String()] = append(counts[string(p)+"|"+cd.String()], v.(int))
 				cmu.Unlock()
 			}
 		}
@@ -180,7 +190,14 @@ func c14One(c *vf.Ctx, sub string, i int, r *rand.Rand, ids []Ident) {
 	}
 	// workers: explicit syncs and announcements (some failing) per publisher
 	var wg sync.WaitGroup
-	var explicitOK atomic.Int64
+	var explicitOK atomic.Int64 // explicit queried-head syncs that ran a sync and returned success
+	explicitSync := func(p *c08Pub) {
+		en, _ := enterN.LoadOrStore(goroutineID(), new(atomic.Int64))
+		before := en.(*atomic.Int64).Load()
+		if got, err := s.SyncAdChain(context.Background(), p.front.AddrInfo()); err == nil && got.Defined() && en.(*atomic.Int64).Load() > before {
+			explicitOK.Add(1)
+		}
+	}
 	for _, p := range pubs {
 		wg.Add(1)
 		rr := rand.New(rand.NewSource(r.Int63()))
@@ -194,26 +211,54 @@ func c14One(c *vf.Ctx, sub string, i int, r *rand.Rand, ids []Ident) {
 				p.mu.Unlock()
 				switch rr.Intn(4) {
 				case 0, 1: // explicit sync with queried head
-					if got, err := s.SyncAdChain(context.Background(), p.front.AddrInfo()); err == nil && got.Defined() {
-						explicitOK.Add(1)
-					}
+					explicitSync(p)
 				case 2: // announcement
 					_ = s.Announce(context.Background(), h, p.front.AddrInfo())
 				default: // announcement whose sync fails (404 on the head block): one error notification
 					bad := h.String()
-					p.front.Plan = func(ev ReqEvent) *Fault {
+					hold := time.Duration(0)
+					if rr.Intn(2) == 0 {
+						hold = time.Duration(200+rr.Intn(2500)) * time.Microsecond // newer announcements queue up behind it
+					}
+					p.front.SetPlan(func(ev ReqEvent) *Fault {
 						if ev.Rsrc == bad && ev.Occur == 0 {
-							return &Fault{Status: 500, Label: "injected"} // only the first request for it fails
+							f := &Fault{Status: 500, Label: "injected"} // only the first request for it fails
+							if hold > 0 {
+								f.Gate = closedAfter(hold)
+							}
+							return f
 						}
 						return nil
-					}
+					})
 					_ = s.Announce(context.Background(), h, p.front.AddrInfo())
+					if hold > 0 && rr.Intn(2) == 0 {
+						// a newer head is announced while the failing sync is (probably) still running
+						p.mu.Lock()
+						_ = ExtendChain(rr, p.st, p.chain, 1, p.id.ID)
+						h2 := p.chain.Head()
+						p.front.Pub.SetRoot(h2)
+						p.mu.Unlock()
+						_ = s.Announce(context.Background(), h2, p.front.AddrInfo())
+					}
 				}
 				if rr.Intn(3) == 0 {
 					time.Sleep(time.Duration(rr.Intn(800)) * time.Microsecond)
 				}
 			}
 		}(p)
+	}
+	if twoExplicit {
+		for _, p := range pubs {
+			wg.Add(1)
+			rr := rand.New(rand.NewSource(r.Int63()))
+			go func(p *c08Pub) {
+				defer wg.Done()
+				for rd := 0; rd < rounds; rd++ {
+					explicitSync(p)
+					time.Sleep(time.Duration(rr.Intn(600)) * time.Microsecond)
+				}
+			}(p)
+		}
 	}
 	// listener churn while syncs complete
 	wg.Add(1)
@@ -238,17 +283,80 @@ func c14One(c *vf.Ctx, sub string, i int, r *rand.Rand, ids []Ident) {
 		return
 	}
 	// announce-triggered syncs finish asynchronously: logical quiescence
-	deadline := time.Now().Add(60 * time.Second)
-	for time.Now().Before(deadline) {
-		if tl.count("watch.recv") == tl.count("watch.swap.spawn")+tl.count("watch.swap.replaced") &&
-			tl.count("async.enter") == tl.count("async.exit") && tl.count("watch.swap.spawn") == tl.count("async.enter") && tl.count("event.emit.begin") == tl.count("event.emit.end") {
-			break
+	quiesce := func() {
+		deadline := time.Now().Add(60 * time.Second)
+		for time.Now().Before(deadline) {
+			if tl.count("watch.recv") == tl.count("watch.swap.spawn")+tl.count("watch.swap.replaced") &&
+				tl.count("async.enter") == tl.count("async.exit") && tl.count("watch.swap.spawn") == tl.count("async.enter") && tl.count("event.emit.begin") == tl.count("event.emit.end") {
+				break
+			}
+			time.Sleep(500 * time.Microsecond)
 		}
-		time.Sleep(500 * time.Microsecond)
+		// the distributor has forwarded everything emitted?
+		for time.Now().Before(deadline) && tl.count("dist.forward") < tl.count("event.emit.end") {
+			time.Sleep(200 * time.Microsecond)
+		}
 	}
-	// the distributor has forwarded everything emitted?
-	for time.Now().Before(deadline) && tl.count("dist.forward") < tl.count("event.emit.end") {
-		time.Sleep(200 * time.Microsecond)
+	quiesce()
+	if overlap != "" {
+		// One sync of a publisher is held at the point where it hands over its notification; a second sync of the
+		// same publisher, for a newer head, is started meanwhile. Whatever the second one does, the notifications
+		// must arrive in the order in which the two syncs completed (checked offline through a fast listener).
+		p := pubs[0]
+		addListener("fast")
+		p.front.SetPlan(nil)
+		p.mu.Lock()
+		_ = ExtendChain(r, p.st, p.chain, 1, p.id.ID)
+		p.front.Pub.SetRoot(p.chain.Head())
+		p.mu.Unlock()
+		reached, release := tl.gateOnce("event.emit.begin")
+		aDone := make(chan struct{})
+		go func() {
+			defer close(aDone)
+			explicitSync(p)
+		}()
+		bDone := make(chan struct{})
+		select {
+		case <-reached:
+			p.mu.Lock()
+			_ = ExtendChain(r, p.st, p.chain, 1, p.id.ID)
+			h2 := p.chain.Head()
+			p.front.Pub.SetRoot(h2)
+			p.mu.Unlock()
+			before := tl.count("event.emit.end")
+			go func() {
+				defer close(bDone)
+				if overlap == "explicit" {
+					explicitSync(p)
+				} else {
+					_ = s.Announce(context.Background(), h2, p.front.AddrInfo())
+				}
+			}()
+			// (bounded wait only: in a correct subscriber the second sync cannot finish before the first is released)
+			for w := 0; w < 80; w++ {
+				if tl.count("event.emit.end") > before {
+					c.Inc("second_sync_notified_while_first_was_held")
+					break
+				}
+				time.Sleep(500 * time.Microsecond)
+			}
+			c.Inc("held_notification_overlap_runs")
+		case <-aDone:
+			close(bDone) // the first sync did not get as far as a notification
+		case <-time.After(30 * time.Second):
+			close(bDone)
+		}
+		release()
+		ov, od := vf.Watch(60*time.Second, func() { <-aDone; <-bDone })
+		if ov != vf.Returned {
+			c.Fail(sub, i, "syncs-did-not-complete-after-held-notification:"+vf.LibFrame(od), od, nil)
+			for _, l := range listeners {
+				close(l.release)
+			}
+			s.Close()
+			return
+		}
+		quiesce()
 	}
 	lmu.Lock()
 	ls := append([]*c14Listener(nil), listeners...)
@@ -310,21 +418,61 @@ func c14One(c *vf.Ctx, sub string, i int, r *rand.Rand, ids []Ident) {
 			}
 		}
 	}
+	// every announce-triggered sync that ran (succeeded or failed) produced exactly one notification
+	type asyncSt struct {
+		taken, entered bool
+		emits          int
+		head           cid.Cid
+		peer           peer.ID
+	}
+	ast := map[int]*asyncSt{}
+	explicitEmits := int64(0)
+	for _, e := range log {
+		switch e.Point {
+		case "pending.taken":
+			ast[e.G] = &asyncSt{taken: true, head: e.Cid, peer: e.Peer}
+		case "sync.enter":
+			if a := ast[e.G]; a != nil {
+				a.entered = true
+			}
+		case "event.emit.begin":
+			if a := ast[e.G]; a != nil {
+				a.emits++
+			} else {
+				explicitEmits++
+			}
+		case "async.exit":
+			if a := ast[e.G]; a != nil && a.entered {
+				c.Inc("announce_triggered_syncs_checked")
+				if a.emits != 1 {
+					key := "announce-triggered-sync-produced-no-notification"
+					if a.emits > 1 {
+						key = "announce-triggered-sync-produced-several-notifications"
+					}
+					c.Fail(sub, i, key, fmt.Sprintf("publisher %s head #%d: the handling goroutine ran a sync and sent %d notifications", short(a.peer), byID[a.peer].chain.Pos(a.head), a.emits), wit())
+				}
+			}
+			delete(ast, e.G)
+		}
+	}
 	// one notification per completed explicit queried-head sync (+ announce-triggered completions)
-	expl := 0
-	for _, em := range emits {
-		_ = em
-		expl++
+	if explicitEmits != explicitOK.Load() {
+		c.Fail(sub, i, "notifications-differ-from-completed-explicit-syncs", fmt.Sprintf("%d notifications sent by explicit syncs, %d explicit syncs ran and returned success", explicitEmits, explicitOK.Load()), wit())
 	}
-	if int64(expl) < explicitOK.Load() {
-		c.Fail(sub, i, "fewer-notifications-than-completed-syncs", fmt.Sprintf("%d emissions, %d successful explicit syncs", expl, explicitOK.Load()), wit())
-	}
+	c.Add("explicit_syncs_completed", explicitOK.Load())
 	for _, l := range ls {
 		l.mu.Lock()
 		got := append([]dagsync.SyncFinished(nil), l.got...)
 		l.mu.Unlock()
 		used := map[*c14Emit]bool{}
 		lastIdx := map[peer.ID]int{}
+		ordinal := map[*c14Emit]int{} // position among the emissions with the same (publisher, cid)
+		ordN := map[string]int{}
+		for _, em := range emits {
+			k := string(em.peer) + "|" + em.cid.String()
+			ordinal[em] = ordN[k]
+			ordN[k]++
+		}
 		lw := func() any {
 			var gs []string
 			for _, g := range got {
@@ -368,8 +516,12 @@ func c14One(c *vf.Ctx, sub string, i int, r *rand.Rand, ids []Ident) {
 			lastIdx[g.PeerID] = idx
 			if g.Err == nil {
 				cmu.Lock()
-				want, ok := counts[string(g.PeerID)+"|"+g.Cid.String()]
+				cl := counts[string(g.PeerID)+"|"+g.Cid.String()]
 				cmu.Unlock()
+				want, ok := 0, false
+				if ordinal[em] < len(cl) && len(cl) == ordN[string(g.PeerID)+"|"+g.Cid.String()] {
+					want, ok = cl[ordinal[em]], true
+				}
 				if ok && want != g.Count {
 					c.Fail(sub, i, "notification-count-differs", fmt.Sprintf("listener %d: count %d, the sync reported %d blocks", l.id, g.Count, want), lw())
 				}
